@@ -817,7 +817,7 @@ pub fn drive_canon(seed: u64, tier: &str, workdir: &str, out: &mut Out) {
             3 => 300,
             4 => {
                 if tier == "thorough" {
-                    3000
+                    2000
                 } else {
                     1200
                 }
